@@ -824,6 +824,11 @@ class Exec:
                     raise Untranslatable("slice step")
                 self.theory.setslice(self, recv, lo, hi, v)
             else:
+                if (isinstance(target.value, ast.Name) and isinstance(recv, Z) and recv.kind.startswith("seq")
+                        and hasattr(self.theory, "local_setitem")):
+                    # a local list (value semantics: lists bound to locals are fresh copies): functional update
+                    self.env[target.value.id] = self.theory.local_setitem(self, recv, self.expr(target.slice), v)
+                    return
                 self.theory.setitem(self, recv, self.expr(target.slice), v)
         else:
             raise Untranslatable(f"assignment target {type(target).__name__}")
